@@ -111,6 +111,7 @@ type Env struct {
 	Rcpt      []*Account
 	Depositor *Account
 	Impostor  *Account
+	Pool      *Account // liquidity of the mode-B test swap action
 
 	Orbiter sdk.AccAddress
 	Dust    sdk.AccAddress
@@ -154,6 +155,7 @@ func newEnv() *Env {
 	e.HypOwner = add(newAccount("hypowner"))
 	e.Depositor = add(newAccount("depositor"))
 	e.Impostor = add(newAccount("impostor"))
+	e.Pool = add(newAccount("pool"))
 	for i := 0; i < NumRelayers; i++ {
 		e.Relayers = append(e.Relayers, add(newAccount(fmt.Sprintf("relayer%d", i))))
 	}
@@ -230,6 +232,8 @@ func (e *Env) genesis(app *simapp.SimApp, valSet *cmttypes.ValidatorSet, orbiter
 			if n == "noble0" {
 				coins = coins.Add(sdk.NewCoin(DenomHuge, HugeSupply))
 			}
+		case n == "pool":
+			coins = coins.Add(sdk.NewCoin(DenomUSDC, big("1000000000000000000"))).Add(sdk.NewCoin(DenomOther, big("1000000000000000000")))
 		case n == "depositor":
 			coins = coins.Add(sdk.NewCoin(DenomUSDC, big("1000000000000"))).Add(sdk.NewCoin(DenomOther, big("1000000000000")))
 		}
